@@ -329,7 +329,7 @@ def dispatch(rec, case):
 
 def plan(tier, seed):
     n = 16
-    per = 2500 if tier == 'thorough' else 130
+    per = 2500 if tier == 'thorough' else 600
     shards = [{'seed': seed, 'shard': s, 'n': per} for s in range(n)]
     if tier == 'thorough':
         shards.append({'dfs': True, 'limit': 200000, 'kind2': 'binary'})
